@@ -8,7 +8,9 @@ FAMILIES = ["herm", "gen"]
 def build(tier):
     report = {}
     groups = SG.select(PROP, FAMILIES, report)
-    meta = {"level": "proof", "trusted_base": SG.TRUSTED, "assumptions": SG.ASSUMPTIONS, "extraction": report,
+    from props import shiftmodes
+    groups += shiftmodes.lemmas(report)
+    meta = {"level": "proof", "trusted_base": SG.TRUSTED + ["z3 4.8.12 (five real-arithmetic identities)"], "assumptions": SG.ASSUMPTIONS, "extraction": report,
             "not_covered": ['that the restarted iteration converges to the wanted end of the spectrum (numerical)'],
             "explanation": 'plumbing of the selection rule: argsort contract -> retrieve_ritzpair -> restart shifts -> compute'}
     return groups, meta
